@@ -473,6 +473,13 @@ func (r *Resolver) resolve(ctx context.Context, rs *resolveState) (*dns.Msg, err
 		} else {
 			r.clearResolutionZoneFailure(rs.req.Question[0], rs.servers.Zone)
 		}
+		if resp.Rcode == dns.RcodeNameError {
+			// A denial with nothing in it still asserts that the name
+			// does not exist: from a signed zone it needs its proof like
+			// any other (RFC 4035 §5.4), so it takes the validating path
+			// instead of being relayed as it came.
+			return r.authority(ctx, rs.req, resp, rs.parentDS, rs.servers.Zone)
+		}
 		return resp, nil
 	}
 
@@ -515,7 +522,8 @@ func (r *Resolver) resolve(ctx context.Context, rs *resolveState) (*dns.Msg, err
 	m.RecursionAvailable = true
 	m.Extra = rs.req.Extra
 
-	return m, nil
+	// An empty NOERROR is a NODATA without its proof: validated like one.
+	return r.authority(ctx, rs.req, m, rs.parentDS, rs.servers.Zone)
 }
 
 // groupLookup collapses concurrent identical lookups onto one leader
